@@ -474,6 +474,47 @@ def legal_pair_programs():
                                     out.append(pr)
     return out
 
+def limit_pair_programs(core=False):
+    """Deterministic enumeration of "more than one TIMES / RT_TIMES": every giver of a call limit - the limit implied by
+    ALLOW_CALL / FORBID_CALL (plain and NAMED_), TIMES with a positive upper bound (n / interval / AT_LEAST / AT_MOST),
+    TIMES with upper bound 0 (three spellings) and RT_TIMES - followed by a second limit clause of each class. Only the
+    programs whose sole faults are the two "Only one ... call limit" rows are kept, so that nothing else can reject them.
+    core=True: one representative per class on the void function, short macros (the quick tier runs these every time)."""
+    if core:
+        firsts = [("REQUIRE_CALL", [("TIMES", TIMES_POS[0])]), ("REQUIRE_CALL", [("TIMES", TIMES_POS[7])]),
+                  ("REQUIRE_CALL", [("TIMES", TIMES_ZERO[0])]), ("REQUIRE_CALL", [("TIMES", TIMES_ZERO[2])]),
+                  ("REQUIRE_CALL", [rt_clauses()[1]]), ("REQUIRE_CALL", [rt_clauses()[0]]),
+                  ("ALLOW_CALL", []), ("FORBID_CALL", []), ("NAMED_FORBID_CALL", [])]
+        seconds = [("TIMES", TIMES_POS[1]), ("TIMES", TIMES_ZERO[0]), rt_clauses()[1]]
+        out = []
+        for family, first in firsts:
+            for sec in seconds:
+                pr = make_program("void_int", family, [*first, sec])
+                rows_ = {f.row for f in evaluate(pr)}
+                if rows_ and rows_ <= {"R16", "R19"}:
+                    out.append(pr)
+        return out
+    firsts = [("REQUIRE_CALL", [("TIMES", v)]) for v in (TIMES_POS[0], TIMES_POS[3], TIMES_POS[7], TIMES_POS[9])]
+    firsts += [("REQUIRE_CALL", [("TIMES", v)]) for v in TIMES_ZERO]
+    firsts += [("REQUIRE_CALL", [c]) for c in (rt_clauses()[0], rt_clauses()[1], rt_clauses()[3], rt_clauses()[-1])]
+    firsts += [("NAMED_REQUIRE_CALL", [("TIMES", TIMES_ZERO[0])]), ("NAMED_REQUIRE_CALL", [("TIMES", TIMES_POS[1])])]
+    firsts += [(f, []) for f in CALL_FAMILIES if rules.family_base(f) != "REQUIRE_CALL"]
+    seconds = [("TIMES", TIMES_POS[1]), ("TIMES", TIMES_POS[7]), ("TIMES", TIMES_ZERO[0]), rt_clauses()[1], rt_clauses()[0], rt_clauses()[-1]]
+    out = []
+    for kind in ("void_int", "int_int"):
+        if kind not in KINDS:
+            continue
+        term = [] if KINDS[kind].ret == "void" else [return_variants(kind, ("ok",))[0]]
+        for family, first in firsts:
+            for sec in seconds:
+                for items in ([*first, sec] + term, term + [*first, sec]):
+                    for o in ({}, {"long_macros": True}, {"vform": True}):
+                        pr = make_program(kind, family, items, **o)
+                        rows_ = {f.row for f in evaluate(pr)}
+                        if rows_ and rows_ <= {"R16", "R19"} and pr not in out:
+                            out.append(pr)
+    return out
+
 def legal_family_programs():
     """Deterministic enumeration: every expectation macro family x {short, long macro names} x {void, value} signature,
     in its minimal legal form and with one extra legal clause of each kind the family admits. (A slip inside one
